@@ -73,7 +73,6 @@ static Verdict run(const Case &c) {
     auto request = [&](int64_t st, uint16_t seq, uint8_t type, uint16_t off, uint8_t tos, QLtResp *out) -> std::string {
         Op op; op.kind = K_QLT; op.a = {st, seq, type, off, tos};
         Built b = build_frame(h, op, sh);
-        if (sh.active >= 0 && sh.active != b.station) return "";   // domain: commands from the active mapper
         std::vector<Ev> tx = sends_only(w.deliver(ifi, b.frame));
         Mac want = b.bridged ? BCAST : h.st_real(b.station);
         std::string e = check_resp(tx, cands_for(type), h.mtu, own, want, seq, off, out);
@@ -174,7 +173,11 @@ static bool grid(const Args &a, Evidence &ev, size_t mtu, const std::vector<size
         }
         const Bytes &D = h.friendly;
         std::vector<const Bytes *> cands = {&D};
+        Case cur; h.to_case(cur);     // kept current for the crash dump (a sanitizer abort bypasses the normal failure path)
+        { Op d; d.kind = K_DISCOVER; d.a = {0, 0, 1, 1, 0, 0, -1}; Op q; q.kind = K_QLT; q.a = {0, 7, 0x11, 0, 0}; cur.ops = {d, q}; }
+        CurrentScope scope(cur);
         for (uint32_t off : offs) {
+            cur.ops[1].a[3] = off;
             Bytes f = mk_qlt(own, m, own, m, 7, 0x11, (uint16_t)off, 0);
             std::vector<Ev> tx = sends_only(w.deliver(ifi, f));
             std::string e = check_resp(tx, cands, mtu, own, m, 7, (uint16_t)off, nullptr);
@@ -253,7 +256,7 @@ int main(int argc, char **argv) {
                     for (int j = 1; j <= 5; j++) for (int x = -1; x <= 1; x++) od.push_back((int64_t)j * (int64_t)pmax + x);
                     for (auto &x : od) x = std::max<int64_t>(0, std::min<int64_t>(x, 0xFFFF));
                     o.kind = K_QLT;
-                    o.a = {-1, *gx::bnd({0, 1, 0xFFFF}, 0, 0xFFFF, 1, 3), type, *gx::bnd(od, 0, 0xFFFF, 4, 1), *gx::pick({0, 0, 0, 1})};
+                    o.a = {*gx::pick({-1, -1, -1, 0, 1, 2}), *gx::bnd({0, 1, 0xFFFF}, 0, 0xFFFF, 1, 3), type, *gx::bnd(od, 0, 0xFFFF, 4, 1), *gx::pick({0, 0, 0, 1})};
                 } else if (k <= 8) { o.kind = K_REASM; o.a = {*gx::pick({0x0E, 0x11, 0x13, 0x0E}), *hg::seq_gen()}; }
                 else if (k == 9) { o.kind = K_SETICON; o.blob = pattern((size_t)*gx::bnd({1, (int64_t)pmax, (int64_t)pmax + 1}, 1, 3000, 1, 1), (uint32_t)*gx::range<int>(0, 99999)); }
                 else if (k == 10) { o.kind = K_RESET; o.a = {0, *gx::pick({0, 0, 1}), 1}; }
